@@ -216,6 +216,9 @@ class DB:
         self._load()
         self._link()
         self._fields()
+        self._fields(deep=True)
+        for f in self.functions.values():
+            f._locals = None
         self._callers: Optional[Dict[str, List[Tuple[FuncInfo, ast.Call]]]] = None
 
     # ------------------------------------------------------------------ load
@@ -469,7 +472,7 @@ class DB:
             return ts[0] if len(ts) == 1 else ("union", tuple(ts))
         return ANY
 
-    def _fields(self) -> None:
+    def _fields(self, deep: bool = False) -> None:
         """Field types from annotated assignments / parameter annotations."""
         for c in self.classes.values():
             for f in c.methods.values():
@@ -493,6 +496,11 @@ class DB:
                         t = ptypes[val.id]
                     elif val is not None:
                         t = self._quick_type(c.module, val)
+                        if t == ANY and deep:
+                            try:
+                                t = self.type_of(val, f)
+                            except RecursionError:  # pragma: no cover
+                                t = ANY
                     if t != ANY and (nm not in c.field_types or ann is not None):
                         c.field_types[nm] = t
 
